@@ -2,6 +2,7 @@
 processes) and on the extracted Refs model (`mx_refs`), compared after every step; plus the direct
 oracle of the property itself (what is needed is present), verifier passes killed before any of
 their unlink system calls (strace), and store processes killed inside their trash moves."""
+import json
 import os
 import shutil
 import signal
@@ -11,7 +12,15 @@ import time
 import lsmlib
 import vlib
 
-NUM_LEVELS = 16
+def _num_levels():
+    rc, out = vlib.sh(["python3", os.path.join(vlib.VERIF, "tools", "constants.py"), "Refs", "--json"])
+    try:
+        return json.loads(out.strip().splitlines()[-1])["Refs"]["REFS_NUM_LEVELS"]
+    except Exception:
+        return 16
+
+
+NUM_LEVELS = _num_levels()
 
 
 def strip_sst(n):
@@ -115,9 +124,12 @@ class Run8:
         self.sess = None
         self.counts = {k: 0 for k in ["write", "flush", "merge", "gc", "move", "none", "reopen", "take", "drop", "verify_ok",
                                       "verify_backoff", "verify_err", "vkill", "vkill_reached", "skill", "skill_reached",
-                                      "roll", "trash_moves", "unlinks", "readd_same_edit", "readd_later", "compare"]}
+                                      "roll", "trash_moves", "unlinks", "readd_same_edit", "readd_later", "compare", "selector_panic", "selector_panic_after_reopen", "stale_read_c01", "entries_compared"]}
         self.seen_removed = set()
         self.last_view = None
+        self.file_entries = {}
+        self.readded = set()
+        self.entries_before_close = None
         self.model.cmd("reset")
         self.open_session(first=True)
 
@@ -183,6 +195,9 @@ class Run8:
         return parse_mani(self.icmd("mani")[0])
 
     def reads(self):
+        """point reads of the key universe.  A read that FAILS (a file is missing) is this
+        property's business; a read that returns a stale value is C01's (known class K2 after a
+        reopen: recover.rs rebuilds the levels from key/timestamp ranges) and is only counted."""
         if self.dead:
             return
         keys = self.universe
@@ -193,8 +208,28 @@ class Run8:
             want = self.spec.get(k)
             ws = "." if want is None else lsmlib.hx(want)
             ic = "." if io == "~" else io
-            if ic != ws:
-                self.problem("read", key=lsmlib.hx(k), impl=io, spec=ws)
+            if io.startswith("err:"):
+                self.problem("needed", what="a point read failed", key=lsmlib.hx(k), impl=io)
+            elif ic != ws:
+                self.counts["stale_read_c01"] += 1
+
+    def entries(self):
+        """every (key, timestamp, value) of every sst the tree lists: the physical contents of the
+        store, independent of how the levels are arranged"""
+        out = self.icmd("dump")
+        names = []
+        for ln in out:
+            if ln.startswith("FILE "):
+                t = ln.split(" ")
+                if "ERR" in t or any(x.startswith("OPENERR") for x in t[2:]):
+                    self.problem("needed", what="an sst listed by the tree cannot be read", file=t[1], line=ln[:200])
+                self.file_entries[t[1]] = frozenset(t[2:])
+            elif ln.startswith("DUMP"):
+                names = [it.split(":")[1] for it in ln.split(" ")[1:]]
+        ents = set()
+        for n in names:
+            ents |= self.file_entries.get(n, frozenset())
+        return ents
 
     # ---------------------------------------------------------------- sessions
     def open_session(self, first=False, expect_logs=None):
@@ -234,10 +269,19 @@ class Run8:
         self.last_view = self.compare("open", obs, view)
 
     def reopen(self):
+        before = None
+        if self.sess and not self.dead:
+            before = self.entries()
         if self.sess:
             self.sess.close()
         self.model.cmd("crash")
         self.open_session()
+        if before is not None and not self.dead:
+            after = self.entries()
+            self.counts["entries_compared"] += len(before)
+            lost = sorted(before - after)
+            if lost:
+                self.problem("needed", what="entries of the store are gone after reopen", lost=lost[:5], n_lost=len(lost))
 
     # ---------------------------------------------------------------- ops
     def write(self, k, v):
@@ -257,8 +301,13 @@ class Run8:
         for a in e["add"]:
             if a in e["rm"]:
                 self.counts["readd_same_edit"] += 1
+                self.readded.add(a)
             elif a in self.seen_removed:
                 self.counts["readd_later"] += 1
+                self.readded.add(a)
+            if self.last_view and (a + ".sst") in self.last_view["vstrs"]:
+                # the store re-creates a setsum that the verifier has recorded for unlinking
+                self.known_events.append(("K-verifier-by-name", "a compaction re-creates %s while the verifier's recorded intent names trash/%s.sst" % (a[:8], a[:8]), len(self.events)))
         self.seen_removed |= set(e["rm"])
 
     def last_edit(self, frags):
@@ -301,6 +350,16 @@ class Run8:
             self.icmd("hookdrop r%d" % hookdrop)
         out = self.icmd("compact")[0]
         t = out.split(" ")
+        if out == "PANIC compact":
+            # a panic of the selector (next_compaction asserts) is not a statement about files:
+            # counted, reported in the evidence, and the history ends here without a C08 verdict
+            self.counts["selector_panic"] += 1
+            if self.counts["reopen"]:
+                # C01's known class K2 (recover.rs rebuilt levels that overlap): the selector's
+                # assertions trip on such a tree
+                self.counts["selector_panic_after_reopen"] += 1
+            self.dead = True
+            return False
         if t[0] != "COMPACT":
             self.problem("error", what="compaction step did not complete", out=out)
             self.dead = True
@@ -393,6 +452,22 @@ class Run8:
             self.problem("verifier", what="verifier pass failed", out=out[:500])
         before = self.last_view
         self.last_view = self.compare("verifier pass (%s)" % cls, obs)
+        if cls == "backoff" and self.last_view:
+            # a pass waits for a trash entry.  Normally the file is still in sst/ (a reader holds it).
+            # If it is in neither directory the pass can never go on: for an sst that is the known
+            # class K-verifier-by-name (an earlier unlink took a later incarnation of that name)
+            path = out.split(" ")[2]
+            ls = self.last_view["ls"]
+            if path.endswith(".sst"):
+                name = path[:-4]
+                if name not in ls["sst"] and name not in ls["trash"]:
+                    if name in self.readded:
+                        self.known_events.append(("K-verifier-by-name", "the verifier waits for trash/%s.sst, which it unlinked itself when it processed an earlier removal of that setsum" % name[:8], len(self.events)))
+                    else:
+                        self.problem("verifier", what="the verifier waits for an sst that is in neither sst/ nor trash/ and was never re-created", path=path)
+            elif path.startswith("log."):
+                if path[4:] not in ls["tlogs"] and path[4:] not in ls["logs"]:
+                    self.problem("verifier", what="the verifier waits for a log that is in neither the root nor trash/", path=path)
         if self.last_view:
             self.counts["unlinks"] += len(before["ls"]["trash"]) + len(before["ls"]["tlogs"]) - len(self.last_view["ls"]["trash"]) - len(self.last_view["ls"]["tlogs"])
 
@@ -418,6 +493,59 @@ class Run8:
             self.problem("corr", what="verifier pass: the model and the implementation disagree on whether a %d-th unlink happens" % j,
                          impl=out[:200], model=m[:80])
         self.last_view = self.compare("verifier pass killed before unlink %d" % j, m.split(" ", 1)[1])
+
+    def store_killed(self, what, j):
+        """the store process is killed (SIGKILL) before the j-th rename it issues during a flush or a
+        compaction step; then the direct oracle: the store reopens, everything the manifest lists
+        is in sst/, and every key reads back what was written.  The history ends here (the model is
+        not told where inside the operation the process died)."""
+        if self.dead:
+            return
+        if what == "flush" and not self.dirty:
+            return
+        pid = self.sess.p.pid
+        tr = subprocess.Popen(["strace", "-f", "-p", str(pid), "-o", "/dev/null", "-e", "trace=rename,renameat,renameat2",
+                               "-e", "inject=rename,renameat,renameat2:signal=SIGKILL:when=%d" % j],
+                              stdout=subprocess.DEVNULL, stderr=subprocess.PIPE)
+        # strace announces the attach on stderr
+        line = tr.stderr.readline().decode(errors="replace")
+        if "ttached" not in line:
+            time.sleep(0.3)
+        before = self.last_view
+        killed = False
+        for _ in range(60 if what == "compact" else 1):
+            out = self.sess.cmd(what)
+            self.events.append((what + " (kill at rename %d armed)" % j, out[-1][:120]))
+            if out[-1] in ("EOF", "HANG"):
+                killed = True
+                break
+            if out[-1].startswith("COMPACT none"):
+                break
+        try:
+            tr.terminate()
+            tr.wait(timeout=10)
+        except Exception:
+            tr.kill()
+        self.counts["skill"] += 1
+        self.counts["skill_reached"] += killed
+        try:
+            self.sess.p.kill()
+        except Exception:
+            pass
+        self.sess.close()
+        # reopen: the direct oracle
+        self.sess = lsmlib.Session(self.exe, self.root, self.opts)
+        self.events.append(("open after kill", self.sess.open_line))
+        if self.sess.open_line != "OPEN ok":
+            self.problem("needed", what="the store does not reopen after being killed inside a %s" % what, line=self.sess.open_line)
+            self.dead = True
+            return
+        self.dead = False
+        self.held = {}
+        view = self.impl_view()
+        self.check_needed(view, "reopen after kill inside " + what)
+        self.reads()
+        self.dead = True          # nothing more is compared against the model in this history
 
     def finish(self):
         try:
